@@ -95,9 +95,17 @@ Definition gen_eqb (a b: generic) : bool :=
 (* ---- used_generics: what one field (or variant) contributes, then the declaration-order pass with its HashSet of names ---- *)
 Definition own_path (t: ty) : list tt := match t with Ty c _ _ _ => pr_cat c end.
 Definition find_gen (gens: list generic) (k: list tt) : list generic := match find (fun x => tts_eqb (gkey x) k) gens with Some x => [x] | None => [] end.
+(* names_param: the path is the parameter itself, or starts with it and goes on with `::` (`T::Item`) *)
+Fixpoint names_tok (k w: list tt) : bool :=
+  match k, w with
+  | [], [] => true
+  | [], TP PColon :: TP PColon :: _ => true
+  | a :: k', b :: w' => tt_eqb a b && names_tok k' w'
+  | _, _ => false
+  end.
 Definition used_of_type (gens: list generic) (t: ty) : list generic :=
-  filter (fun x => tts_eqb (gkey x) (own_path t)) gens ++
-  filter (fun x => existsb (fun w => tts_eqb (gkey x) w) (wraps_list t)) gens ++
+  filter (fun x => names_tok (gkey x) (own_path t)) gens ++
+  filter (fun x => existsb (fun w => names_tok (gkey x) w) (wraps_list t)) gens ++
   flat_map (fun a => find_gen gens [TId a]) (used_lifetimes t) ++
   flat_map (fun v => find_gen gens v) (array_lens t).
 Fixpoint used_pass (raw: list generic) (seen: list (list tt)) (gens: list generic) : list generic :=
